@@ -150,6 +150,11 @@ type cellSum struct{}
 
 func (cellSum) Empty() *cell { return &cell{} }
 func (cellSum) Combine(a, b *cell) *cell {
+	if a == nil || b == nil {
+		// an accumulator or an element that nobody made (the zero value of the element type): the harness survives and
+		// the result is spoiled for good
+		return &cell{v: 1 << 40}
+	}
 	a.v = addChecked(a.v, b.v)
 	return a
 }
